@@ -47,18 +47,19 @@ Definition parse_atomlist (w d : nat) (fv : bool) (r : grec) : res bytes :=
       match g_vel r with Some v => fmt3 w (d + 1) v | None => [] end).
 
 (* GroFile.determine_format: (nfigures, velocities) *)
+Definition determine_format_body (line : bytes) : res (nat * bool) :=
+  let l := drop_final_nl line in
+  let size := length l in
+  if negb (count_char NL l =? 0) then Err EValue else
+  let ndots := count_char "."%char (skipn COORD_START l) in
+  let* vel := (if ndots =? 3 then Ok false else if ndots =? 6 then Ok true else Err EIO) in
+  let nfig := (size - COORD_START) / ndots in
+  if negb (size =? COORD_START + ndots * nfig) then Err EIO else
+  Ok (nfig, vel).
 Definition determine_format (line : bytes) : res (nat * bool) :=
   match line with
   | [] => Err EIndex                               (* atomline[-1] on '' *)
-  | _ =>
-    let l := drop_final_nl line in
-    let size := length l in
-    if negb (count_char NL l =? 0) then Err EValue else
-    let ndots := count_char "."%char (skipn COORD_START l) in
-    let* vel := (if ndots =? 3 then Ok false else if ndots =? 6 then Ok true else Err EIO) in
-    let nfig := (size - COORD_START) / ndots in
-    if negb (size =? COORD_START + ndots * nfig) then Err EIO else
-    Ok (nfig, vel)
+  | _ => determine_format_body line
   end.
 
 Fixpoint chop_fields (k w : nat) (l : bytes) : list bytes :=
@@ -71,22 +72,23 @@ Definition io_of_value {A} (r : res A) : res A :=
   match r with Err EValue => Err EIO | x => x end.
 
 (* GroFile.parse_atomline(line, format_dict) *)
-Definition parse_atomline (fmt : nat * bool) (line : bytes) : res ratom :=
+Definition parse_atomline_body (fmt : nat * bool) (line : bytes) : res ratom :=
   let (w, vel) := fmt in
+  let l := drop_final_nl line in
+  let expected := 20 + w * 3 * (1 + (if vel then 1 else 0)) in
+  if negb (length l =? expected) then Err EIO else
+  let (f_res, r1) := chop 5 l in
+  let (f_rname, r2) := chop 5 r1 in
+  let (f_aname, r3) := chop 5 r2 in
+  let (f_anum, r4) := chop 5 r3 in
+  let* resnum := io_of_value (py_int f_res) in
+  let* anum := io_of_value (py_int f_anum) in
+  let* vals := mapM parse_float (chop_fields (if vel then 6 else 3) w r4) in
+  Ok (mkratom resnum (strip_py f_rname) (strip_py f_aname) anum vals).
+Definition parse_atomline (fmt : nat * bool) (line : bytes) : res ratom :=
   match line with
-  | [] => Err EIndex
-  | _ =>
-    let l := drop_final_nl line in
-    let expected := 20 + w * 3 * (1 + (if vel then 1 else 0)) in
-    if negb (length l =? expected) then Err EIO else
-    let (f_res, r1) := chop 5 l in
-    let (f_rname, r2) := chop 5 r1 in
-    let (f_aname, r3) := chop 5 r2 in
-    let (f_anum, r4) := chop 5 r3 in
-    let* resnum := io_of_value (py_int f_res) in
-    let* anum := io_of_value (py_int f_anum) in
-    let* vals := mapM parse_float (chop_fields (if vel then 6 else 3) w r4) in
-    Ok (mkratom resnum (strip_py f_rname) (strip_py f_aname) anum vals)
+  | [] => Err EIndex                               (* atomline[-1] on '' *)
+  | _ => parse_atomline_body fmt line
   end.
 
 (* ------------------------------------------------------------------ box line *)
